@@ -26,6 +26,16 @@ const basePrelude = `
 (declare-fun bset (Str Int Int) Str)
 (declare-fun bget (Str Int) Int)
 (declare-fun sconcat (Str Str) Str)
+(declare-const str_default Str)
+(declare-fun nozero (Str) Bool)
+(declare-fun hasprefix (Str Str) Bool)
+(declare-fun containsAny (Str Str) Bool)
+(declare-fun bjoin (SL Str) Str)
+(declare-fun bsplit (Str Str) SL)
+(declare-fun bsplitn (Str Str Int) SL)
+(define-fun-rec sllen ((l SL)) Int (ite ((_ is snil) l) 0 (+ 1 (sllen (stl l)))))
+(define-fun-rec slnth ((l SL) (i Int)) Str
+  (ite ((_ is snil) l) str_default (ite (= i 0) (shd l) (slnth (stl l) (- i 1)))))
 (define-fun go_div ((a Int) (b Int)) Int
   (ite (>= a 0) (ite (> b 0) (div a b) (- (div a (- b))))
                 (ite (> b 0) (- (div (- a) b)) (div (- a) (- b)))))
@@ -416,7 +426,7 @@ func (s *SMT) header(logicOpts string) string {
 // the loaded preludes (a prelude opts in with a line "; @literal <pred>").
 func (s *SMT) literalHooks() []string {
 	var out []string
-	want := map[string]bool{}
+	want := map[string]bool{"nozero": true}
 	for _, p := range s.preludes {
 		for _, ln := range strings.Split(p, "\n") {
 			ln = strings.TrimSpace(ln)
